@@ -192,7 +192,7 @@ def _cell_gen(rng, case):
     import types
     import numpy as np
     n = rng.randint(1, 6)
-    d = np.array([rng.choice([0.0, 0.5, -0.5, 1.0, rng.uniform(-1, 1)]) for _ in range(n)], dtype=float)
+    d = np.array([rng.choice([0.0, 0.5, -0.5, 1.0, 3e-9, -2e-12, 1e-300, rng.uniform(-1, 1)]) for _ in range(n)], dtype=float)
     idl = sorted(rng.sample(range(1, 20), n))
     c = rng.randrange(n)
     return dict(o=types.SimpleNamespace(deltas={REP: d}, idl={REP: idl}), repname=REP, counters=[c], oi=0, offsets=[rng.choice([0.0, 0.5, -0.5])],
